@@ -347,6 +347,10 @@ func (h *handler) OnDecodeError(ctx *gortsplib.ServerHandlerOnDecodeErrorCtx) {
 }
 func (h *handler) OnStreamWriteError(ctx *gortsplib.ServerHandlerOnStreamWriteErrorCtx) {
 	h.log.sBegin(ctx.Session, "stream-write-error")
+	// what an application does here: log which session fell behind (accessors of the session, called from the writer's
+	// goroutine while the stream holds its read lock)
+	_ = ctx.Session.State()
+	_ = ctx.Session.Stats()
 	h.log.sEnd(ctx.Session)
 }
 
